@@ -868,6 +868,8 @@ class iindex(dict):
                 # Rowids for other.common were not appended above. Do so now.
                 for col in range(self.shape[1]):
                     shifted_rowids = other.common_rowids(col).astype(dtype) + shift
+                    if len(shifted_rowids) == 0:
+                        continue
                     rowids = self.get((other.common, col))
                     if rowids is None:
                         self[(other.common, col)] = shifted_rowids
@@ -886,7 +888,9 @@ class iindex(dict):
                 # Rowids for other.common were not appended above. Do so now.
                 shifted_rowids = other.common_rowids().astype(dtype) + shift
                 rowids = self.get((other.common,))
-                if rowids is None:
+                if len(shifted_rowids) == 0:
+                    pass
+                elif rowids is None:
                     self[(other.common,)] = shifted_rowids
                 else:
                     self[(other.common,)] = numpy.append(rowids, shifted_rowids)
